@@ -380,6 +380,9 @@ var KeepFunction func(shortName string) bool
 // callee is inlined when it belongs to the module and to the caller's package, all its static call sites
 // are in that one calling function, its address is never taken, it has no defer or recover, it is not
 // recursive and it is small.  Repeated until nothing changes (helpers of helpers), at most three rounds.
+// InlinedAway: helpers whose every call was folded into the caller (second view only).
+var InlinedAway = map[*ssa.Function]bool{}
+
 func inlineHelpers(prog *ssa.Program) {
 	var fns []*ssa.Function
 	for fn := range ssautil.AllFunctions(prog) {
@@ -387,6 +390,30 @@ func inlineHelpers(prog *ssa.Program) {
 			fns = append(fns, fn)
 		}
 	}
+	inlinedOnce := map[*ssa.Function]bool{}
+	defer func() {
+		// a helper of which no call is left is no longer part of the program in this view
+		still := map[*ssa.Function]bool{}
+		for _, fn := range fns {
+			if inlinedOnce[fn] {
+				continue
+			}
+			for _, b := range fn.Blocks {
+				for _, ins := range b.Instrs {
+					for _, op := range ins.Operands(nil) {
+						if g, ok := (*op).(*ssa.Function); ok {
+							still[g] = true
+						}
+					}
+				}
+			}
+		}
+		for g := range inlinedOnce {
+			if !still[g] {
+				InlinedAway[g] = true
+			}
+		}
+	}()
 	for round := 0; round < 3; round++ {
 		callers := map[*ssa.Function]map[*ssa.Function]int{}
 		taken := map[*ssa.Function]bool{}
@@ -451,6 +478,7 @@ func inlineHelpers(prog *ssa.Program) {
 							fmt.Fprintln(os.Stderr, "inline", g.String(), "into", fn.String(), okInl)
 						}
 						if okInl {
+							inlinedOnce[g] = true
 							changed, again = true, true
 							break scan
 						}
